@@ -219,7 +219,7 @@ def replay(case):
 def run(tier, seed):
     dd, bd = (3, 4) if tier == "quick" else (4, 6)
     cases = []
-    for p in (0.0, 0.3, 0.5, 1.0):
+    for p in (0.0, 0.3, 0.5, 0.75, 1.0):
         for h in itertools.product(dropout_events(), repeat=dd):
             cases.append({"kind": "dropout", "p": p, "history": list(h)})
     cfgs = bn_configs()
@@ -240,7 +240,7 @@ def run(tier, seed):
     nd = 4 * (11 ** (dd + 1) - 1) // 10; nb = len(cfgs) * ((4 ** (bd + 1) - 1) // 3 + (4 ** bd - 1) // 3)
     cov = {"states": nd + nb, "transitions": nd + nb - 4 - len(cfgs), "traces_validated_against_impl": r["evaluations"],
            "evaluations": r["evaluations"], "distinct_nontrivial": r["distinct_nontrivial"], "samples": r["samples"], "exhaustive": True,
-           "rule": f"Dropout p in {{0,.3,.5,1}} x ALL {11 ** dd} histories of length {dd} over {{train, eval, forward with each of the 8 "
+           "rule": f"Dropout p in {{0,.3,.5,.75,1}} x ALL {11 ** dd} histories of length {dd} over {{train, eval, forward with each of the 8 "
                    f"keep/drop answer vectors, forward at the boundary u=p}}; BatchNorm: {len(cfgs)} configurations (momentum {{.1,.5,1,0,None}} x "
                    f"affine x track_running_stats x input rank 2/3/4) x ALL {4 ** bd} histories of length {bd} over {{train, eval, forward(A: 2 "
                    "samples, input requires grad), forward(B: 3 samples, plain input), for rank >= 3 also forward(C: 1 sample, under no_grad) with histories one shorter}} in lock-step with torch.nn.BatchNorm1d/2d (float64; float32 layers one level shallower, "
